@@ -25,7 +25,7 @@ cd /verif
 git -C /repo apply /verif/seeded/$name/patch.diff || { echo "patch does not apply to /repo"; exit 2; }
 for p in "$@"; do
   echo "== ./check $p quick on the seeded tree"
-  ./check $p quick > /verif/seeded/$name/check-$p.out 2>&1; rc=$?
+  bin/gosymex check -prop $p -tier quick -no-evidence > /verif/seeded/$name/check-$p.out 2>&1; rc=$?
   grep -c "^VIOLATION" /verif/seeded/$name/check-$p.out | sed "s/^/   VIOLATION lines: /"
   grep "violated:\|INCONCLUSIVE" /verif/seeded/$name/check-$p.out | head -3 | cut -c1-260
   echo "   exit=$rc"
